@@ -332,6 +332,53 @@ def norm_cmd(l):
     return l.strip().replace(" ", "_")[:60]
 
 
+def readline_sessions(ctx, orc, stats):
+    """/repo's own configuration (config.mak: -DREADLINE) reads commands with readline(); the streams above use the
+    fgets() build.  Sessions fed through a pipe to the readline build: it must end at the end of its input (with and
+    without a final `quit`), an empty line must end an asm block, and the data commands must answer as in the fgets
+    build (only the lines that start with an address are compared)."""
+    exe = ctx.repo.get("naken_util_rl")
+    if not exe:
+        return
+    import subprocess
+    scripts = [
+        ("eof-after-print", "msp430", "print 0-1\n"),
+        ("eof-after-write", "msp430", "write 0x10 1 2 3\nprint 0x10-0x12\n"),
+        ("eof-empty-input", "msp430", ""),
+        ("eof-in-asm-block", "msp430", "asm 0x100\nnop\n"),
+        ("asm-ended-by-empty-line", "msp430", "asm 0x100\nmov.w #0x1234, r5\n\nprint16 0x100-0x102\nquit\n"),
+        ("asm-ended-by-empty-line", "avr8", "asm 0x10\nldi r16, 5\n\nprint16 0x10-0x10\nquit\n"),
+        ("empty-lines-then-quit", "z80", "\n\nprint 0-3\n\nquit\n"),
+        ("quit", "6502", "quit\n"),
+        ("exit", "6502", "exit\n"),
+    ]
+    def run(exe_, cpu, text):
+        try:
+            r = subprocess.run([exe_, "-" + cpu], input=text.encode(), stdout=subprocess.PIPE, stderr=subprocess.PIPE,
+                               env=nvlib.SAN_ENV, timeout=20, cwd=ctx.tmpdir())
+            return r.returncode, r.stdout.decode("latin-1")[-20000:]
+        except subprocess.TimeoutExpired as e:
+            return -999, (e.stdout or b"").decode("latin-1")[-2000:]
+    def data_lines(out):
+        return [l.split("> ")[-1].rstrip() for l in out.split("\n") if re.match(r"^(\S+> )*0x[0-9a-f]+:", l)]
+    for name, cpu, text in scripts:
+        orc["cases"] += 1
+        rc, out = run(exe, cpu, text)
+        stats["readline-sessions"] += 1
+        if rc != 0:
+            fail(orc, "C17:readline:%s:%s:%s" % (name, cpu, "timeout" if rc == -999 else "rc=%d" % rc), text,
+                 "naken_util (readline build) ends with status 0 when its input ends", "rc=%d, last output: %s" % (rc, out[-300:]),
+                 "the readline configuration did not terminate normally")
+            continue
+        rc2, out2 = run(ctx.repo["naken_util"], cpu, text if text.endswith("quit\n") or text.endswith("exit\n") else text)
+        if rc2 == 0 and data_lines(out) != data_lines(out2) and "asm" not in text.split("\n")[0]:
+            fail(orc, "C17:readline:%s:%s:answers-differ" % (name, cpu), text, "\n".join(data_lines(out2))[:600],
+                 "\n".join(data_lines(out))[:600], "readline build and fgets build answer differently")
+        if name == "asm-ended-by-empty-line" and not any(re.search(r"(1234|e005|05e0)", l) for l in data_lines(out)):
+            fail(orc, "C17:readline:%s:%s:block-not-assembled" % (name, cpu), text, "the assembled word listed by print16",
+                 "\n".join(data_lines(out))[:600] or out[-300:], "an empty line did not end the asm block in the readline build")
+
+
 def oracle(ctx, orc, focus=None):
     stats = collections.Counter()
     rng = ctx.rng
@@ -524,6 +571,7 @@ def oracle(ctx, orc, focus=None):
         else:
             stats["range-top-ended"] += 1
 
+    readline_sessions(ctx, orc, stats)
     orc["stats"] = dict(sorted(stats.items()))
     orc["distinct_nontrivial"] = stats["proc-cmd-lines"] + stats.get("proc-load rc=0", 0)
     orc["samples"] = [{"input": "naken_util -%s < %s ..." % (cpus[0], scripts[(cpus[0], 0)][:4]), "observed": "exit 0"}]
